@@ -138,7 +138,7 @@ func gen(t *rapid.T) Case {
 	if h.Thorough() {
 		depth = rapid.IntRange(2, 5).Draw(t, "depth")
 	}
-	s := schemagen.Gen(schemagen.Options{Depth: depth}).Draw(t, "schema")
+	s := schemagen.Gen(schemagen.Options{Depth: depth, OddNames: true}).Draw(t, "schema")
 	v := schemagen.GenValue(s, depth+1).Draw(t, "value")
 	rep := rapid.SampledFrom([]string{"float64", "number"}).Draw(t, "rep")
 	return Case{Schema: jv.Canon(s), Value: jv.Canon(v), Rep: rep}
